@@ -63,6 +63,26 @@ Theorem c02_extensions : forall expand st now lim q u c,
 Proof. exact extensions. Qed.
 Print Assumptions c02_extensions.
 
+(* ... and an SSH certificate exists only if EVERY configured template - name and value - expands for
+   this user; a template the expander rejects (for everybody or for this name only) is never skipped:
+   nothing is issued *)
+Theorem c02_failed_expansion_refused : forall expand st now lim q u c,
+  certgen expand st now lim q = Issued u c -> d_ssh c = true ->
+  forall k v, In (k, v) (s_templates st) ->
+    expand k (s_name st u) <> None /\ expand v (s_name st u) <> None.
+Proof. exact failed_expansion_refused. Qed.
+Print Assumptions c02_failed_expansion_refused.
+
+(* no two distinct authenticated users ever receive the same certified name (SSH principals / X.509
+   common name), across servers, requests, certificate and key types: the name goes into the
+   certificate byte for byte - not cut, not folded, not normalised *)
+Theorem c02_names_injective : forall expand st1 now1 lim1 q1 u1 c1 st2 now2 lim2 q2 u2 c2,
+  certgen expand st1 now1 lim1 q1 = Issued u1 c1 ->
+  certgen expand st2 now2 lim2 q2 = Issued u2 c2 ->
+  d_names c1 = d_names c2 -> s_name st1 u1 = s_name st2 u2.
+Proof. exact names_injective. Qed.
+Print Assumptions c02_names_injective.
+
 (* the credential minted for a submitted name is for its normalisation (reprocessUsername);
    the endpoint compares the raw URL segment with it and writes it into the certificate *)
 Theorem c02_user_is_normalised : forall expand okta disable st now lim q submitted u c,
